@@ -45,4 +45,18 @@ CHECKS["C02"] = {
   "design_ref": "DESIGN.md §5 C02, §7",
   "note": "The specification generates the attack surface and states the contract; crash and allocation are facts about a process observed by the harness, not by TLC. Release build in quick, dev build of the nest set in thorough.",
 }
+CHECKS["C12"] = {
+  "level": "exploration",
+  "technique": "Erlang's term order written in TLA+ (EtfOrder.tla, exact integer/float arithmetic on digit and bit sequences) evaluated by TLC over a boundary universe; all ordered pairs replayed on OwnedTerm and BorrowedTerm",
+  "text": "TLC computes Cmp for every ordered pair of a 159 (quick) / 182 (thorough) value universe; the harness evaluates Ord::cmp for every representation of every value (191+ terms, 36k+ ordered pairs, both term types), sorts the universe and iterates a BTreeMap; every pair must agree in sign (only inequality is required among distinct identifiers/funs).",
+  "design_ref": "DESIGN.md §5 C12",
+  "note": "Bounded universe (all pairs, not all terms); the spec's order is self-checked for reflexivity/antisymmetry (and transitivity in the thorough tier).",
+}
+CHECKS["C11"] = {
+  "level": "exploration",
+  "technique": "laws of a total preorder consistent with ==/hash stated in TLA+ (EtfOrder.tla law operators, Laws_Order.tla) and evaluated by TLC over the relation observed on the real term types; transitivity over all triples by the driver",
+  "text": "Full cmp/==/hash matrices are observed for every representation of the C12 universe; TLC evaluates antisymmetry, == => Equal, == => equal hashes and borrowed = owned over all ordered pairs; all triples are checked for transitivity; sort, BTreeMap and HashMap scripts over the whole universe must neither panic, lose, duplicate nor misplace an entry.",
+  "design_ref": "DESIGN.md §5 C11",
+  "note": "Laws are decided on the bounded universe only; finite floats and minimal big-integer digits (well-formed terms).",
+}
 NOT_APPLICABLE = {}
